@@ -5,3 +5,9 @@ add('C14', 'Hypothesis-generated meshes/BC sets + exhaustive enumeration of smal
     'integer-valued assembly), so any generated counterexample is a real violation; absence on larger meshes is sampled only.',
     'Trusts numpy and the checker\'s own brute-force (node, component) table; DofManager is given a genuine FunctionSpace '
     'object whose shape arrays are placeholders (it only reads .mesh).')
+add('C18', 'Hypothesis-generated ladders of arguments on/around every branch switch; inequality + Lipschitz (C1) oracles',
+    'Generated search: ~1e6 evaluations per quick run on ladders placed exactly on, 1-8 ulps from and at 1e-15..1e-1 relative distance '
+    'from every branch switch of smooth min/max/abs, the friction potential, zmax and smooth_linear, widths over ten decades. '
+    'Oracles are the stated inequalities with a rounding allowance, exact equality outside the band, and Lipschitz continuity of '
+    'value and jax.grad between neighbouring ladder points. Sampling only; no exhaustiveness claimed.',
+    'Rounding allowance 8*ulp*max(|x|,|y|,width); subnormal arguments excluded (XLA flushes them); trusts numpy for the true min/max/abs.')
